@@ -78,34 +78,54 @@ def scenarios():
 
 
 class Ctx:
-    __slots__ = ('ncmp', 'searched', 'env', 'notes')
+    __slots__ = ('ncmp', 'searched', 'env', 'notes', 'ins')
 
-    def __init__(self, ncmp=0, searched=False, env=None, notes=()):
-        self.ncmp, self.searched, self.env, self.notes = ncmp, searched, env or {}, notes
+    def __init__(self, ncmp=0, searched=False, env=None, notes=(), ins=None):
+        self.ncmp, self.searched, self.env, self.notes, self.ins = ncmp, searched, env or {}, notes, ins
 
     def but(self, **kw):
-        c = Ctx(self.ncmp, self.searched, self.env, self.notes)
+        c = Ctx(self.ncmp, self.searched, self.env, self.notes, self.ins)
         for k, v in kw.items():
             setattr(c, k, v)
         return c
 
 
 class Interp:
-    def __init__(self, f, scen):
-        self.f, self.sc = f, scen
+    def __init__(self, f, scen, prog=None):
+        self.f, self.sc, self.prog = f, scen, prog
         self.errors = []
 
+    def is_hinted(self, n):
+        """Does the call node designate a hinted insertion entry point of FlatSet (first parameter named `hint`)?"""
+        tgt = self.prog.fns.get(n.get('fn')) if self.prog is not None and n.get('fn') is not None else None
+        return bool(tgt) and tgt['name'].startswith(FS + '::') and (tgt.get('pparams') or [''])[0] == 'hint'
+
+    def deref(self, pos, cx):
+        """What *pos designates.  After an in-place insertion at offset p (cx.ins) positions are those of the grown sequence:
+        p designates the new element (the value), positions after it the old elements shifted by one."""
+        if cx.ins is None:
+            return ('elem', pos)
+        p = cx.ins
+        if pos == 'B' and self.sc.kb < W:
+            pos = -self.sc.kb
+        if not isinstance(p, int) or not isinstance(pos, int):
+            raise Unknown('dereference after an in-place insertion far from the hint')
+        if pos == p:
+            return ('val',)
+        return ('elem', pos if pos < p else pos - 1)
+
     # ---- iterator equality under the scenario
-    def it_eq(self, a, b):
+    def it_eq(self, a, b, cx=None):
         sc = self.sc
         if a == b:
             return True
+        grown = 1 if (cx is not None and cx.ins is not None) else 0
 
         def norm(x):
             if x == 'B':
                 return -sc.kb if sc.kb < W else None
             if x == 'E':
-                return sc.ke if sc.ke < W else None
+                return sc.ke + grown if sc.ke < W else None
             if x in ('L', 'R'):
                 return None
             return x
@@ -170,7 +190,7 @@ class Interp:
         if k == 'un' and n.get('op') == '*':
             out = []
             for v, cx2 in self.ev(n['sub'], cx):
-                out.append((('elem', v[1]), cx2))
+                out.append((self.deref(v[1], cx2), cx2))
             return out
         if k == 'un' and n.get('op') == '-' and A.strip(n['sub']).get('k') == 'lit':
             return [(('int', -A.strip(n['sub'])['v']), cx)]
@@ -182,7 +202,7 @@ class Interp:
             sn = A.cshort(n)
             nm = A.callee(n)
             if n.get('op') == '*' and n.get('obj') is not None:
-                return [(('elem', v[1]), cx2) for v, cx2 in self.ev(n['obj'], cx)]
+                return [(self.deref(v[1], cx2), cx2) for v, cx2 in self.ev(n['obj'], cx)]
             if sn in ('begin', 'cbegin', 'mbegin') and n.get('method'):
                 return [(('it', 'B'), cx)]
             if sn in ('end', 'cend', 'mend') and n.get('method'):
@@ -213,10 +233,38 @@ class Interp:
                 hi_p = hi[1]
                 res = self.clamp(p, hi_p)
                 return [(('it', res), cx2.but(searched=True, notes=cx2.notes + (('search', hi_p),)))]
-            if sn == 'insert' and n.get('method') and n.get('obj') is not None and A.strip(n['obj']).get('name') == '_sortedVector':
-                (pos, cx1), = self.ev(n['args'][0], cx)
-                return [(('ins', pos[1]), cx1)]
-            if sn in ('insert', 'insert_val') and n.get('amc') and nm.startswith(FS + '::'):
+            on_vec = n.get('method') and n.get('obj') is not None and A.strip(n['obj']).get('name') == '_sortedVector'
+            if sn in ('insert', 'emplace') and on_vec and n.get('args'):
+                out = []
+                for pos, cx1 in self.ev(n['args'][0], cx):
+                    if cx1.ins is not None:
+                        raise Unknown('second insertion into the underlying vector on one path')
+                    out.append((('ins', pos[1]), cx1.but(ins=pos[1])))
+                return out
+            if sn == 'erase' and on_vec and len(n.get('args', [])) == 1:
+                out = []
+                for pos, cx1 in self.ev(n['args'][0], cx):
+                    if cx1.ins is None or pos[1] != cx1.ins:
+                        raise Unknown('erase of an element other than the one just inserted in place')
+                    out.append((('it', pos[1]), cx1.but(ins=None)))
+                return out
+            if sn in ('size', 'capacity', 'empty', 'max_size') and n.get('method') and not n.get('args'):
+                return [(('state',), cx)]
+            if self.is_hinted(n) and len(n.get('args', [])) >= 2:
+                out = []
+                for pos, cx1 in self.ev(n['args'][0], cx):
+                    if pos[0] not in ('it', 'ins'):
+                        raise Unknown('hint argument of a delegation is not a position')
+                    out.append((('deleg', pos[1], nm), cx1))
+                return out
+            if sn in ('insert', 'insert_val', 'emplace') and n.get('amc') and nm.startswith(FS + '::'):
+                if n.get('args'):
+                    try:
+                        vals = self.ev(n['args'][0], cx)
+                    except Unknown:
+                        vals = []
+                    if any(v[0] == 'elem' for v, _ in vals):
+                        raise Unknown('un-hinted insert of an existing element')
                 return [(('fallback',), cx.but(searched=True))]
             if n.get('op') in ('==', '!=') or n.get('op') == '()':
                 return [(('bool', b), cx2) for b, cx2 in self.cond(n, cx)]
@@ -259,6 +307,14 @@ class Interp:
             for b, c in self.cond(n['lhs'], cx):
                 out += self.cond(n['rhs'], c) if b else [(False, c)]
             return out
+        if k == 'bin' and n.get('op') in ('<', '>', '<=', '>=', '==', '!='):
+            try:
+                lv = self.ev(n['lhs'], cx)
+                rv = self.ev(n['rhs'], cx)
+            except Unknown:
+                lv = rv = []
+            if lv and rv and all(v[0] in ('state', 'int') for v, _ in lv + rv) and any(v[0] == 'state' for v, _ in lv + rv):
+                return [(True, cx), (False, cx)]      # size / capacity of the container: both outcomes are possible
         is_eq = (k == 'bin' and n.get('op') in ('==', '!=')) or (k == 'call' and n.get('op') in ('==', '!='))
         if is_eq:
             l = n['lhs'] if k == 'bin' else (n['obj'] if n.get('method') else n['args'][0])
@@ -266,9 +322,9 @@ class Interp:
             out = []
             for lv, c1 in self.ev(l, cx):
                 for rv, c2 in self.ev(r, c1):
-                    if lv[0] != 'it' or rv[0] != 'it':
+                    if lv[0] not in ('it', 'ins') or rv[0] not in ('it', 'ins'):
                         raise Unknown('comparison of non-iterators')
-                    e = self.it_eq(lv[1], rv[1])
+                    e = self.it_eq(lv[1], rv[1], c2)
                     vals = [e] if e is not None else [True, False]
                     for x in vals:
                         out.append(((x if n['op'] == '==' else not x), c2))
@@ -285,6 +341,12 @@ class Interp:
                     elif v0[0] == 'val' and v1[0] == 'elem':    # comp(v, *x): v < elem
                         r_ = self.elem_rel(v1[1])
                         vals = [r_ == 'lt'] if r_ is not None else self.unknown_rel(v1[1], 'v<elem')
+                    elif v0[0] == 'val' and v1[0] == 'val':     # irreflexive
+                        vals = [False]
+                    elif v0[0] == 'elem' and v1[0] == 'elem' and isinstance(v0[1], int) and isinstance(v1[1], int):
+                        for q in (v0[1], v1[1]):
+                            self.elem_rel(q)                     # both must designate elements
+                        vals = [v0[1] < v1[1]]                   # the elements are strictly increasing
                     else:
                         raise Unknown('comparator applied to %s, %s' % (v0[0], v1[0]))
                     out += [(x, c3) for x in vals]
@@ -292,9 +354,9 @@ class Interp:
         if k == 'ref' or k == 'construct' or k == 'cond':
             out = []
             for v, c in self.ev(n, cx):
-                if v[0] != 'bool':
+                if v[0] not in ('bool', 'int'):
                     raise Unknown('non-boolean condition')
-                out.append((v[1], c))
+                out.append((bool(v[1]), c))
             return out
         if n.get('cv') is not None:
             return [(bool(n['cv']), cx)]
@@ -356,6 +418,8 @@ class Interp:
             return [('fall', None, cx)]
         if k in A.LOOPS:
             raise Unknown('loop')
+        if k == 'call' and A.callee(n) != '__assert_fail' and not ('assert' in (n.get('mac') or [])):
+            return [('fall', None, c) for _v, c in self.ev(n, cx)]
         # expression statement (e.g. the expansion of assert)
         if k in ('cond', 'cast', 'call') and ('assert' in (n.get('mac') or []) or A.callee(n) == '__assert_fail'):
             return [('fall', None, cx)]
@@ -365,8 +429,21 @@ class Interp:
 def judge(sc, act, cx):
     """(ok, reason) for the action taken in this scenario."""
     a = act[0]
+    if a == 'deleg':
+        if cx.ins is not None:
+            return False, 'delegates to %s although an element has already been inserted in place (duplicate)' % short(act[2])
+        p = act[1]
+        if p == 0 or p in ('B', 'E') or (isinstance(p, int) and (sc.exists(p) or (p == sc.ke and sc.ke < W))):
+            return True, 'delegates to %s with %s' % (short(act[2]), 'its own hint' if p == 0 else 'position %s' % (p,))
+        raise Unknown('delegation with a position that may lie outside [begin, end]')
     if a == 'fallback':
+        if cx.ins is not None:
+            return False, 'performs the un-hinted insert although the element constructed in place at offset %s is still in the vector (duplicate)' % (cx.ins,)
         return True, 'un-hinted insert'
+    if cx.ins is not None:
+        if act[1] != cx.ins:
+            return False, 'returns position %s while the element constructed in place at offset %s stays in the vector' % (act[1], cx.ins)
+        a = 'ins'
     if a == 'it':
         p = act[1]
         if cx.notes and cx.notes[-1][0] == 'search' and p in ('L', 'R') or (p == 'L'):
@@ -414,38 +491,64 @@ def hint_ord(progs):
     scs = scenarios()
     for prog in progs:
         for f in prog.amc_functions():
-            if f['name'] != FS + '::insert_hint' or f.get('body') is None:
+            if f.get('body') is None or not f['name'].startswith(FS + '::') or (f.get('pparams') or [''])[0] != 'hint':
+                continue
+            if short(f['name']) not in ('insert_hint', 'insert', 'emplace_hint'):
+                continue
+            fname = short(f['name'])
+            if len(f.get('params', [])) > 1 and ('node_type' in f['params'][1]['t'] or 'NodeType' in f['params'][1]['t'] or 'node' in (f.get('pparams') or ['', ''])[1:2]
+                                                 or (f.get('pparams') or ['', ''])[1:2] == ['nh']):
+                # the node overload: an empty node inserts nothing, otherwise it must hand the value over to a hinted entry point with its own
+                # hint and never touch the underlying vector itself (what happens to the node is NODE's business)
+                delegs = [c for c in A.calls(f['body']) if Interp(f, scs[0], prog).is_hinted(c) and len(c.get('args', [])) >= 2]
+                def own_hint(c):
+                    try:
+                        vals = Interp(f, scs[0], prog).ev(c['args'][0], Ctx())
+                    except Unknown:
+                        return False
+                    return all(v == ('it', 0) for v, _ in vals)
+                own = [c for c in delegs if own_hint(c)]
+                direct = [c for c in A.calls(f['body']) if c.get('method') and c.get('obj') is not None and A.strip(c['obj']).get('name') == '_sortedVector'
+                          and not c.get('constm')]
+                ok = len(own) >= 1 and len(own) == len(delegs) and not direct
+                rr12.instance('%s|node' % f['key'], {'function': f['pname'][:150], 'delegations_with_own_hint': len(own), 'direct_vector_mutations': len(direct),
+                                                     'verdict': 'guarded delegation' if ok else 'FAILS'})
+                if not ok:
+                    rr12.add(Finding('HINT-ORD', '%s|route' % f['key'], f['loc'],
+                                     'insert(hint, node) no longer hands its value to the hinted insertion with its own hint (delegations: %d, with own hint: %d, '
+                                     'direct mutations of the underlying vector: %d): the position is not decided by the verified decision tree'
+                                     % (len(delegs), len(own), len(direct)), where=f['pname'], unit=prog.uname))
                 continue
             worst = 0
             npaths = 0
             for sc in scs:
-                ip = Interp(f, sc)
+                ip = Interp(f, sc, prog)
                 try:
                     outs = ip.run(f['body'], Ctx())
                 except Unknown as e:
                     if ip.errors:
                         rr12.add(Finding('HINT-ORD', '%s|deref' % f['key'], f['loc'],
-                                         'in scenario %s the decision tree %s' % (sc.name(), ip.errors[0]), where=f['pname'], unit=prog.uname))
+                                         'in scenario %s %s %s' % (sc.name(), fname, ip.errors[0]), where=f['pname'], unit=prog.uname))
                         continue
                     if str(e) == 'loop':
                         rr19.add(Finding('HINT-FREE', '%s|loop' % f['key'], f['loc'],
-                                         'insert_hint contains a loop: the number of comparator calls with a correct hint is no longer bounded by a constant',
+                                         '%s contains a loop: the number of comparator calls with a correct hint is no longer bounded by a constant' % fname,
                                          where=f['pname'], unit=prog.uname))
                         break
-                    msg = 'HINT-ORD: the interpreter does not understand insert_hint any more (%s, scenario %s)' % (e, sc.name())
+                    msg = 'HINT-ORD: the interpreter does not understand %s any more (%s, scenario %s)' % (fname, e, sc.name())
                     rr12.broken = rr12.broken or msg
                     rr19.broken = rr19.broken or msg
                     break
                 for kind, act, cx in outs:
                     npaths += 1
                     if kind != 'ret':
-                        rr12.add(Finding('HINT-ORD', '%s|noreturn' % f['key'], f['loc'], 'a path of insert_hint does not return (scenario %s)' % sc.name(),
+                        rr12.add(Finding('HINT-ORD', '%s|noreturn' % f['key'], f['loc'], 'a path of %s does not return (scenario %s)' % (fname, sc.name()),
                                          where=f['pname'], unit=prog.uname))
                         continue
                     try:
                         ok, why = judge(sc, act, cx)
                     except Unknown as e:
-                        rr12.broken = rr12.broken or 'HINT-ORD: cannot judge an action of insert_hint (%s, scenario %s)' % (e, sc.name())
+                        rr12.broken = rr12.broken or 'HINT-ORD: cannot judge an action of %s (%s, scenario %s)' % (fname, e, sc.name())
                         continue
                     # a search + epilogue / fallback is right when the searched range contains the true position
                     if cx.searched and act[0] in ('it', 'ins') and cx.notes and cx.notes[-1][0] == 'search':
@@ -455,12 +558,16 @@ def hint_ord(progs):
                                                                   'searched': cx.searched, 'verdict': why})
                     if not ok:
                         rr12.add(Finding('HINT-ORD', '%s|%s' % (f['key'], act[0]), f['loc'],
-                                         'in scenario %s (elements before|from the hint, each <,=,> the value) insert_hint %s: the resulting set differs from '
-                                         'what plain insert gives' % (sc.name(), why), where=f['pname'], unit=prog.uname))
+                                         'in scenario %s (elements before|from the hint, each <,=,> the value) %s %s: the resulting set differs from '
+                                         'what plain insert gives' % (sc.name(), fname, why), where=f['pname'], unit=prog.uname))
                     if sc.correct_hint():
                         worst = max(worst, cx.ncmp if not cx.searched else 0)
                         rr19.instance('%s|%s' % (f['key'], sc.name()), {'scenario': sc.name(), 'comparisons': cx.ncmp, 'searched': cx.searched})
-                        if cx.searched:
+                        if act[0] == 'deleg' and act[1] != 0:
+                            rr19.add(Finding('HINT-FREE', '%s|rehint' % f['key'], f['loc'],
+                                             'with the correct hint of scenario %s %s delegates with another position (%s) than the hint it was given: the '
+                                             'constant bound of a correct hint is lost' % (sc.name(), fname, act[1]), where=f['pname'], unit=prog.uname))
+                        elif cx.searched:
                             rr19.add(Finding('HINT-FREE', '%s|search' % f['key'], f['loc'],
                                              'with the correct hint of scenario %s insert_hint falls back to a binary search (O(log n) comparator calls instead '
                                              'of a constant)' % sc.name(), where=f['pname'], unit=prog.uname))
